@@ -60,3 +60,30 @@ Proof.
   intros H. unfold tcost. apply Qsum_nonneg. rewrite Forall_forall. intros x Hx.
   apply in_map_iff in Hx. destruct Hx as [p [<- _]]. apply cost_nonneg. exact H.
 Qed.
+
+(* ---------- voters ---------- *)
+
+Definition Qnat (n : nat) : Q := inject_Z (Z.of_nat n).
+
+(* a class of [vmul] identical voters with per-project utilities [vu] (additive satisfaction):
+   a list profile has all multiplicities 1, a multiprofile one class per distinct ballot *)
+Record vcls := mkV { vu : list Q; vmul : nat }.
+Definition util (v : vcls) (p : proj) : Q := nth p (vu v) 0.
+Definition nvoters (P : list vcls) : nat := fold_right (fun v n => (vmul v + n)%nat) O P.
+Definition expand (P : list vcls) : list vcls :=
+  flat_map (fun v => repeat (mkV (vu v) 1) (vmul v)) P.
+
+(* approval ballots as lists of approved project ranks (+ multiplicity) *)
+Record aballot := mkA { aset : list proj; amul : nat }.
+Definition approves (b : aballot) (p : proj) : bool := memb p (aset b).
+
+(* ---------- tie-breaking ---------- *)
+
+(* TieBreakingRule.order = sorted(projects, key=func): a stable sort on a numeric key.
+   lexicographic: key = rank; min_cost: key = cost; max_cost: key = -cost; app_score: key = -score *)
+Definition tie_order (tb : proj -> Q) (l : list proj) : list proj :=
+  isort (fun p q => Qleb (tb p) (tb q)) l.
+Definition name_sort (l : list proj) : list proj := isort Nat.leb l.
+(* untie = first element of the order; None on an empty list (Python: IndexError) *)
+Definition untie (tb : proj -> Q) (l : list proj) : option proj := hd_error (tie_order tb l).
+Definition key_of_list (ks : list Q) (p : proj) : Q := nth p ks 0.
